@@ -146,6 +146,10 @@ void harness(void) {
     }
   #if VDEC >= 4
     for (int i = 0; i < n; i++) symx_assume(v[i] < VDN && v[i] <= VMASK);       /* dictionary indices */
+  #elif VDEC == 1 || VDEC == 2
+    /* levels are delivered as int16_t: values above INT16_MAX are not levels (at bit width 16 the SSE2 path of the decoder
+       saturates them to 32767 while its scalar path wraps them: neither is a level) */
+    for (int i = 0; i < n; i++) symx_assume(v[i] <= VMASK && v[i] <= 0x7FFF);
   #else
     for (int i = 0; i < n; i++) symx_assume(v[i] <= VMASK);
   #endif
